@@ -125,6 +125,15 @@ def gen(rng, tier):
         else:
             ws = ws[:rng.choice([0, 12, 24])] if rng.random() < 0.5 else ws + ["abandon"]
         yield Case("algodec", ["ENGLISH", tx(" ".join(ws)), "-"], "neg-algo")
+    # the 24th word carries 3 bits: every way of setting the unused high bits (each single bit, all of them, small multiples)
+    for _ in range(2 if tier == "quick" else 40):
+        e = bytes(rng.randrange(256) for _ in range(32))
+        ws = AlgorandMnemonicEncoder().Encode(e).ToList()
+        i = eng.GetWordIdx(ws[23])
+        for hi in [1 << b for b in range(8)] + [3, 5, 255, 254]:
+            w2 = list(ws)
+            w2[23] = eng.GetWordAtIdx((i & 7) | (hi << 3))
+            yield Case("algodec", ["ENGLISH", tx(" ".join(w2)), "-"], "neg-algo-padbits")
     for sz in (0, 16, 31, 33):
         yield Case("algoenc", [hx(bytes(sz))], "neg-algo-entlen")
     # ---- Electrum v2: bit-length boundaries of the entropy integer
@@ -208,6 +217,35 @@ def relations(rng, tier, rpt):
             except ValueError as ex:
                 rep("Electrum v2 decoder rejects an encoder output", hex(v), type(ex).__name__, "accepted")
             break
+    # one decoder / validator object reused for phrases of different languages and kinds: same answers as fresh objects
+    from bip_utils import MoneroMnemonicValidator, Bip39MnemonicDecoder as _B39D, Bip39MnemonicEncoder as _B39E
+    shared_d, shared_v = MoneroMnemonicDecoder(), MoneroMnemonicValidator()
+    order = list(MONERO_LANGS)
+    rng.shuffle(order)
+    for lang in order + order[:3]:
+        e = bytes(rng.randrange(256) for _ in range(rng.choice([16, 32])))
+        ph = MoneroMnemonicEncoder(MoneroLanguages[lang]).EncodeWithChecksum(e).ToStr()
+        n += 1
+        for what, f_shared, f_fresh in (("MoneroMnemonicDecoder().Decode", lambda: shared_d.Decode(ph).hex(), lambda: MoneroMnemonicDecoder().Decode(ph).hex()),
+                                        ("MoneroMnemonicValidator().IsValid", lambda: str(shared_v.IsValid(ph)), lambda: str(MoneroMnemonicValidator().IsValid(ph)))):
+            outs = []
+            for f in (f_shared, f_fresh):
+                try:
+                    outs.append(f())
+                except Exception as ex:  # noqa
+                    outs.append(type(ex).__name__)
+            if outs[0] != outs[1] or outs[1] not in (e.hex(), "True"):
+                rep("%s on a reused auto-detecting object differs from a fresh object (valid %s phrase)" % (what, lang), ph, outs[0], outs[1])
+    sh39 = _B39D()
+    for lang in list(Bip39Languages)[::-1]:
+        e = bytes(rng.randrange(256) for _ in range(16))
+        ph = _B39E(lang).Encode(e).ToStr()
+        try:
+            got = sh39.Decode(ph).hex()
+        except Exception as ex:  # noqa
+            got = type(ex).__name__
+        if got != _B39D().Decode(ph).hex():
+            rep("Bip39MnemonicDecoder() reused across languages differs from a fresh object", ph, got, _B39D().Decode(ph).hex())
     # listed witness F-v2-noncanon: accepted phrase whose entropy cannot be re-encoded
     w = "polar soft laptop return bone issue network address goat coyote earn abandon"
     try:
